@@ -2,6 +2,7 @@ package main
 
 import (
 	"fmt"
+	"go/token"
 	"strings"
 
 	"golang.org/x/tools/go/ssa"
@@ -78,24 +79,34 @@ func checkWordPositions(w *World, r *Report, fn *ssa.Function, name string, resI
 			}
 			// the word examined: strip masks
 			wv := call.Common().Args[0]
-			wordSrc, kIdx, ok := wordOrigin(wv, container)
-			if !ok {
-				r.Bad("R-WPC1", key, pos, "the word whose zeros are counted does not come from "+container+"[k]")
-				continue
-			}
-			// base>>6 must equal k :  base - want == 64*k   or   k == x>>6 with x == base
-			kL := fa.Lin(kIdx)
 			base0 := R.clone()
 			base0.K -= want
-			okIdx := base0.Eq(linConst(0).addScaled(kL, 64))
+			okIdx := false
+			// case A: base = 64*K (+want): the examined word must be container[K], edge by edge through loop phis
+			divisible := base0.K%64 == 0
+			for _, cf := range base0.T {
+				if cf%64 != 0 {
+					divisible = false
+				}
+			}
+			if divisible {
+				K := linConst(base0.K / 64)
+				for atom, cf := range base0.T {
+					K.T[atom] = cf / 64
+				}
+				okIdx = wordIndexMatches(fa, wv, K, container, 0)
+			}
 			if !okIdx {
-				if x, c, ok := asShiftRight(kIdx); ok && c == 6 {
-					d := fa.Lin(x).Sub(R)
-					okIdx = d.IsConst() && d.K == 0
+				// case B: base = x (aligned), word = container[x>>6]
+				if _, kIdx, ok := wordOrigin(wv, container); ok {
+					if x, c, ok := asShiftRight(kIdx); ok && c == 6 {
+						d := fa.Lin(x).Sub(R)
+						okIdx = d.IsConst() && d.K == 0
+					}
 				}
 			}
 			if !okIdx {
-				r.Bad("R-WPC1", key, pos, fmt.Sprintf("the position base %s does not belong to the word %s[%s] that was examined", R, container, kL))
+				r.Bad("R-WPC1", key, pos, fmt.Sprintf("the position base %s does not belong to the word of %s that was examined (on some path the word index and the base disagree)", R, container))
 				continue
 			}
 			r.OK("R-WPC1", key, pos, fmt.Sprintf("position = %s; base is %d mod 64 and base>>6 is the index of the examined word", L, want))
@@ -114,7 +125,6 @@ func checkWordPositions(w *World, r *Report, fn *ssa.Function, name string, resI
 				}
 			}
 			r.Check(guarded, "R-WPC2", key, pos, "the zero count is not control dependent on the examined word being non-zero (a zero word would yield a position outside the word)", "dominated by the w != 0 edge")
-			_ = wordSrc
 		}
 	}
 	return nsites
@@ -295,4 +305,72 @@ func init() {
 		Quick:   []Config{cfgDefault}, Thorough: []Config{cfgDefault, cfg386},
 		Run: runC13,
 	})
+}
+
+// stripMasks removes AND / AND_NOT with mask operands around a word value.
+func stripMasks(v ssa.Value, container string) ssa.Value {
+	v = stripConv(v)
+	for depth := 0; depth < 6; depth++ {
+		b, ok := v.(*ssa.BinOp)
+		if !ok || (b.Op != token.AND && b.Op != token.AND_NOT) {
+			return v
+		}
+		// the word side is the one that is (transitively) a load of the container or a phi; masks are table loads / constants / ^table
+		isMask := func(x ssa.Value) bool {
+			x = stripConv(x)
+			if u, ok := x.(*ssa.UnOp); ok && u.Op == token.XOR {
+				x = stripConv(u.X)
+			}
+			if _, ok := x.(*ssa.Const); ok {
+				return true
+			}
+			if tab, _, ok := asElemLoad(x); ok {
+				if g, ok := tab.(*ssa.Global); ok && maskTables[g.Name()] {
+					return true
+				}
+			}
+			return false
+		}
+		switch {
+		case isMask(b.Y):
+			v = stripConv(b.X)
+		case b.Op == token.AND && isMask(b.X):
+			v = stripConv(b.Y)
+		default:
+			return v
+		}
+	}
+	return v
+}
+
+// wordIndexMatches: the word value wv is container[K] on every path (phi edges of the word and of K are matched pairwise).
+func wordIndexMatches(fa *FA, wv ssa.Value, K Lin, container string, depth int) bool {
+	if depth > 6 {
+		return false
+	}
+	b := stripMasks(wv, container)
+	if cont, idx, ok := asElemLoad(b); ok {
+		return containerRole(cont) == container && fa.Lin(idx).Eq(K)
+	}
+	p, ok := b.(*ssa.Phi)
+	if !ok {
+		return false
+	}
+	q, ok := fa.AtomValueOfLin(K).(*ssa.Phi)
+	if !ok || q.Block() != p.Block() || len(q.Edges) != len(p.Edges) {
+		return false
+	}
+	for j := range p.Edges {
+		ev := stripMasks(p.Edges[j], container)
+		if ev == ssa.Value(p) {
+			if stripConv(q.Edges[j]) != ssa.Value(q) {
+				return false
+			}
+			continue
+		}
+		if !wordIndexMatches(fa, p.Edges[j], fa.Lin(q.Edges[j]), container, depth+1) {
+			return false
+		}
+	}
+	return true
 }
